@@ -19,7 +19,7 @@
 From OlaBase Require Import Bytes.
 From C15 Require Import Model Spec Sender ProofsBlock Proofs ProofsSender ProofsStream ProofsWrap Cross ProofsCross
   ProofsHetero Multi MultiSpec ProofsMulti Len32 ProofsLen32
-  ProofsStream ProofsPurge Sender2 ProofsSender2.
+  ProofsStream ProofsPurge Sender2 ProofsSender2 Dump ProofsDump ProofsDestroy.
 Local Open Scope nat_scope.
 
 (* what "the bytes a buffer holds" means concretely *)
@@ -432,6 +432,55 @@ Proof. eexists. vm_compute. reflexivity. Qed.
 Example ex_ok3 : Forall (op_ok3 [0; 1; 1] [1])
   [QWrite 1 [1;2;3]%N; QAppendMove 2 1; SWrite 0 [4]%N; SMove 0 2; QRead 2 9; PoolPurge; QWrite 0 [7]%N].
 Proof. repeat constructor; cbn; lia. Qed.
+
+(* ================================================================== final round ===============
+   Dump is pure.  IOQueue::Dump (Size, then Peek of that many bytes) and IOStack::Dump (Copy of
+   every block) as modelled in Dump.v: after EVERY history, on every queue and stack, Dump
+   succeeds, hands exactly the buffer's specified content to FormatData, and the state it
+   leaves - every buffer, every block, the pool's free list and counter - is the state it
+   found (the text layout produced by FormatData itself is outside the model). *)
+Theorem c15_dump_pure : forall bs nq ns ops st outs,
+  1 <= bs -> Forall (op_ok nq ns) ops -> run (init bs nq ns) ops = Ok (st, outs) ->
+  (forall i, i < nq -> dump_q st i = Ok (st, geta (a_q (fst (arun (ainit nq ns) ops))) i)) /\
+  (forall j, j < ns -> dump_s st j = Ok (st, geta (a_s (fst (arun (ainit nq ns) ops))) j)).
+Proof. exact dump_pure. Qed.
+Print Assumptions c15_dump_pure.
+
+(* A zero-length Write (also through BigEndianOutputStream with a zero-width value) on any existing
+   queue or stack of ANY state - empty or not, reachable or not - returns the very same state:
+   no block is allocated, no buffer, block, free list or counter changes, hence Size, Empty and
+   AsIOVec are unchanged.  Second part: the same in the several-pools model. *)
+Theorem c15_zero_write_noop : forall st,
+  (forall i, i < length (s_q st) -> step st (QWrite i []) = Ok (st, ONone) /\
+                                    forall v, step st (QWriteBE i 0 v) = Ok (st, ONone)) /\
+  (forall j, j < length (s_s st) -> step st (SWrite j []) = Ok (st, ONone) /\
+                                    forall v, step st (SWriteBE j 0 v) = Ok (st, ONone)).
+Proof. exact zero_write_noop. Qed.
+Print Assumptions c15_zero_write_noop.
+
+Theorem c15_zero_write_noop_multi : forall st,
+  (forall i k bl, nth_error (m_q st) i = Some (k, bl) -> k < length (m_pools st) ->
+     step2 st (QWrite i []) = Ok (st, ONone)) /\
+  (forall j k bl, nth_error (m_s st) j = Some (k, bl) -> k < length (m_pools st) ->
+     step2 st (SWrite j []) = Ok (st, ONone)).
+Proof. exact zero_write_noop2. Qed.
+Print Assumptions c15_zero_write_noop_multi.
+
+(* Destroying a default-constructed stack together with its private pool (Multi.destroy_private,
+   used by the threaded cases).  In any state satisfying the several-pools invariant I2 (every
+   state reached by a several-pools history does, with g = mig_run: ProofsMulti.multi_reach), if
+   stack j is the only buffer bound to its pool k: the operation succeeds, the new pool k is
+   empty (0 allocated, 0 free), every other pool is untouched, and the totals are short by
+   exactly the blocks that had migrated out of the destroyed pool (- g k of them): they live on
+   in other buffers and are counted by no pool any more - which is what the code does too. *)
+Theorem c15_destroy_private_acct : forall np nq ns st g j k bl,
+  I2 np nq ns st g -> nth_error (m_s st) j = Some (k, bl) -> held2 st k = length bl ->
+  exists st', destroy_private st j = Ok st' /\
+    (Z.of_nat (total_alloc st') - g k = Z.of_nat (total_free st') + Z.of_nat (total_held st'))%Z /\
+    alloc2 st' k = 0 /\ free2 st' k = 0 /\
+    (forall k', k' <> k -> alloc2 st' k' = alloc2 st k' /\ free2 st' k' = free2 st k').
+Proof. exact destroy_private_acct. Qed.
+Print Assumptions c15_destroy_private_acct.
 
 (* ------------------------------------------------------------------ non-vacuity *)
 (* a history that satisfies every hypothesis above and exercises block boundaries, a stack to
